@@ -82,7 +82,7 @@ func VerifC07UserPasses() {
 	in := c05Schemas(g)
 	pass := c07Pass()
 	v.Observe(in)
-	v.Excuse("alias-cycle", symir.AliasCycle(in) || symir.LocalNameCycle(in))
+	v.Excuse("alias-cycle", v.Or(symir.AliasCycle(in), symir.LocalNameCycle(in)))
 	v.Freeze(in)
 	_, _ = Passes{pass}.Process(in)
 	v.CheckFrozen()
